@@ -305,13 +305,14 @@ type c12lit struct {
 	u    uint64
 	f    float64
 	bad  bool // not representable: an error is accepted
+	lim  bool // a spelling at a 64-bit limit: in every tier whatever its length
 }
 
 func c12Lits(maxLen int) []c12lit {
 	var out []c12lit
 	seen := map[string]bool{}
 	add := func(l c12lit) {
-		if len(l.text) <= maxLen && !seen[l.text] {
+		if (len(l.text) <= maxLen || l.lim) && !seen[l.text] {
 			seen[l.text] = true
 			out = append(out, l)
 		}
@@ -330,7 +331,50 @@ func c12Lits(maxLen int) []c12lit {
 			add(l)
 		}
 	}
-	add(c12lit{text: "-9223372036854775808", kind: "int", i: math.MinInt64})
+	add(c12lit{text: "-9223372036854775808", kind: "int", i: math.MinInt64, lim: true})
+	// radix spellings at the 63/64-bit limits
+	for _, rl := range []struct {
+		prefix string
+		base   int
+		digits []string
+	}{
+		{"0x", 16, []string{"7fffffffffffffff", "7FFFFFFFFFFFFFFF", "8000000000000000", "ffffffffffffffff", "FFFFFFFFFFFFFFFF", "10000000000000000"}},
+		{"0o", 8, []string{"777777777777777777777", "1000000000000000000000", "1777777777777777777777", "2000000000000000000000"}},
+		{"0b", 2, []string{strings.Repeat("1", 63), "1" + strings.Repeat("0", 63), strings.Repeat("1", 64), "1" + strings.Repeat("0", 64)}},
+	} {
+		for _, dg := range rl.digits {
+			bi, _ := new(big.Int).SetString(dg, rl.base)
+			l := c12lit{text: rl.prefix + dg, kind: "int", lim: true}
+			if bi.IsInt64() {
+				l.i = bi.Int64()
+			} else {
+				l.bad = true
+			}
+			add(l)
+			if rl.base != 2 {
+				lu := c12lit{text: rl.prefix + dg + "ULL", kind: "uint", lim: true}
+				if bi.IsUint64() {
+					lu.u = bi.Uint64()
+				} else {
+					lu.bad = true
+				}
+				add(lu)
+			}
+		}
+	}
+	for _, dg := range []string{"9223372036854775807", "9223372036854775808", "18446744073709551615", "18446744073709551616"} {
+		bi, _ := new(big.Int).SetString(dg, 10)
+		l := c12lit{text: dg, kind: "int", lim: true, bad: !bi.IsInt64()}
+		if !l.bad {
+			l.i = bi.Int64()
+		}
+		add(l)
+		lu := c12lit{text: dg + "ULL", kind: "uint", lim: true, bad: !bi.IsUint64()}
+		if !lu.bad {
+			lu.u = bi.Uint64()
+		}
+		add(lu)
+	}
 	for _, h := range []string{"0", "1", "f", "F", "1F", "ff", "aB", "10", "7fffffffffffffff", "ffffffffffffffff", "0a"} {
 		v, err := strconv.ParseUint(h, 16, 64)
 		l := c12lit{text: "0x" + h, kind: "int", i: int64(v)}
